@@ -1689,7 +1689,8 @@ def _describe_arg(e: ast.expr, ns: Dict[str, dict], n_params: int) -> Tuple:
         if len(e.args) == 2 and not e.keywords and isinstance(e.args[1], ast.Name) and e.args[1].id == "ctx":
             b = base(e.args[0])
             if b is not None:
-                if "coerce_SrcInner_to_DstInner" in d.get("repr", "") and b[0] in ("field", "param"):
+                if ("coerce_SrcInner_to_DstInner" in d.get("repr", "") or "coerce_DstInner_to_DstInner" in d.get("repr", "")) \
+                        and b[0] in ("field", "param"):
                     return ("nested", b)
                 return b + (True,)
     try:
@@ -1728,7 +1729,8 @@ def c13_pipeline_checks(repo: Repo, tier: str, res: CheckResult, seed: int) -> N
             continue
         n_ok += 1
         n_params = len(cfg["params"])
-        for level, dname, fname in (("top", "Dst", "coerce_Src_to_Dst"), ("inner", "DstInner", "coerce_SrcInner_to_DstInner")):
+        inner_name = "coerce_DstInner_to_DstInner" if cfg.get("same_inner") else "coerce_SrcInner_to_DstInner"
+        for level, dname, fname in (("top", "Dst", "coerce_Src_to_Dst"), ("inner", "DstInner", inner_name)):
             if level == "inner" and not cfg.get("inner"):
                 continue
             want, _ = _link_oracle(cfg, level)
